@@ -78,7 +78,7 @@ fn main() {
     let n = args.threads;
     use vmon::router_engine as re;
     let mut rep: Report = match args.engine.as_str() {
-        "c01-router" | "c04-router" | "c03-router" => {
+        "c01-router" | "c04-router" | "c03-router" | "c05-router" => {
             let prop = args.engine[..3].to_uppercase();
             let w = re::Work {
                 tables: if miri { 3 } else if quick { 40 } else { 1500 },
